@@ -3608,3 +3608,110 @@ Proof.
     apply (is_list_loop_fin s2 v ((a, d) :: cells0) e' ce Hpc2 Hce Hpe
              (length ((a, d) :: cells0)) 0%nat 0%nat false a d a d fuel); cbn [length nth_error]; auto; lia.
 Qed.
+
+(* ============================================ from apply_builtin to called_with *)
+Lemma list_get_nth {A} (l : list A) i : list_get l i = nth_error l (N.to_nat i).
+Proof. destruct l; reflexivity. Qed.
+
+Lemma list_set_get_same {A} (l : list A) i v :
+  i < len l -> list_get (list_set l i v) i = Some v.
+Proof.
+  intros H. rewrite list_get_nth. unfold list_set. rewrite list_set_nat_nth by (unfold len in H; lia).
+  now rewrite Nat.eqb_refl.
+Qed.
+
+Lemma list_set_get_other {A} (l : list A) i j v :
+  i <> j -> list_get (list_set l i v) j = list_get l j.
+Proof.
+  intros H. rewrite !list_get_nth. unfold list_set.
+  destruct (N.ltb_spec i (len l)) as [Hlt|Hge].
+  - rewrite list_set_nat_nth by (unfold len in Hlt; lia).
+    assert (E : (N.to_nat j =? N.to_nat i)%nat = false) by (apply Nat.eqb_neq; lia). now rewrite E.
+  - (* out of range: list_set_nat leaves the list unchanged *)
+    assert (Hid : forall (l0 : list A) k, (length l0 <= k)%nat -> list_set_nat l0 k v = l0).
+    { induction l0 as [|y r IH]; intros [|k] Hk; cbn in *; try reflexivity; try lia. f_equal. apply IH. lia. }
+    rewrite Hid by (unfold len in Hge; lia). reflexivity.
+Qed.
+
+Lemma push_spec s v :
+  sp s < len (stack s) ->
+  exists s', push v s = ROk tt s' /\ sp s' = sp s + 1 /\ sp s' < len (stack s') /\
+    list_get (stack s') (sp s') = Some v /\
+    (forall j, j <= sp s -> list_get (stack s') j = list_get (stack s) j) /\
+    hp s' = hp s /\ st s' = st s.
+Proof.
+  intros Hinv. unfold push.
+  set (l := if sp s + 1 <? len (stack s) then stack s else stack_grow (stack s)).
+  assert (Hl : sp s + 1 < len l /\ forall j, j <= sp s -> list_get l j = list_get (stack s) j).
+  { unfold l. destruct (N.ltb_spec (sp s + 1) (len (stack s))) as [Hlt|Hge].
+    - split; [exact Hlt | reflexivity].
+    - unfold stack_grow, len in *. rewrite app_length, repeat_length. split; [lia|].
+      intros j Hj. rewrite !list_get_nth. apply nth_error_app1. lia. }
+  destruct Hl as (Hlt & Hlow).
+  eexists. split; [reflexivity|]. cbn [with_stack sp stack hp st].
+  refine (conj eq_refl (conj _ (conj _ (conj _ (conj eq_refl eq_refl))))).
+  - unfold list_set, len. rewrite list_set_nat_length. exact Hlt.
+  - now apply list_set_get_same.
+  - intros j Hj. rewrite list_set_get_other by lia. now apply Hlow.
+Qed.
+
+Lemma stack_top_ext stk stk' p r :
+  (forall j, j <= p -> list_get stk' j = list_get stk j) -> stack_top stk p r -> stack_top stk' p r.
+Proof.
+  revert p. induction r as [|v r IH]; intros p Hext H; cbn [stack_top] in *; [exact I|].
+  destruct H as (Hne & Hg & Hr). refine (conj Hne (conj _ _)).
+  - rewrite Hext by lia. exact Hg.
+  - apply IH; [|exact Hr]. intros j Hj. apply Hext. lia.
+Qed.
+
+Lemma push_all_spec args : forall s below,
+  sp s < len (stack s) -> stack_top (stack s) (sp s) below ->
+  exists s', push_all args s = ROk tt s' /\ sp s' < len (stack s') /\
+    stack_top (stack s') (sp s') (rev args ++ below) /\ hp s' = hp s /\ st s' = st s.
+Proof.
+  induction args as [|a r IH]; intros s below Hinv Hb; cbn [push_all rev app].
+  - exists s. repeat split; auto.
+  - destruct (push_spec s a Hinv) as (s1 & E1 & Hsp1 & Hinv1 & Hg1 & Hlow1 & Hh1 & Hs1).
+    rewrite (bind_ok _ _ _ _ _ E1).
+    assert (Hb1 : stack_top (stack s1) (sp s1) (a :: below)).
+    { cbn [stack_top]. refine (conj _ (conj Hg1 _)); [lia|].
+      replace (sp s1 - 1) with (sp s) by lia. eapply stack_top_ext; [|exact Hb]. exact Hlow1. }
+    destruct (IH s1 (a :: below) Hinv1 Hb1) as (s' & E & Hinv' & Ht & Hh & Hs').
+    exists s'. rewrite <- app_assoc. cbn [app]. repeat split; auto; congruence.
+Qed.
+
+(* the machine state in which a builtin finds itself when it is applied to [args] *)
+Theorem apply_builtin_called b args s :
+  sp s < len (stack s) ->
+  exists s1, apply_builtin b args s = call_builtin b s1 /\ called_with s1 args /\
+             hp s1 = hp s /\ st s1 = st s.
+Proof.
+  intros Hinv.
+  destruct (push_all_spec args s [] Hinv I) as (s0 & E0 & Hinv0 & Ht0 & Hh0 & Hs0).
+  destruct (push_spec s0 (VArgc (len args)) Hinv0) as (s1 & E1 & Hsp1 & Hinv1 & Hg1 & Hlow1 & Hh1 & Hs1).
+  exists s1. refine (conj _ (conj _ (conj _ _))); try congruence.
+  - unfold apply_builtin. rewrite (bind_ok _ _ _ _ _ E0), (bind_ok _ _ _ _ _ E1). reflexivity.
+  - unfold called_with. cbn [stack_top]. refine (conj _ (conj Hg1 _)); [lia|].
+    replace (sp s1 - 1) with (sp s0) by lia. rewrite app_nil_r in Ht0.
+    eapply stack_top_ext; [|exact Ht0]. exact Hlow1.
+Qed.
+
+Lemma pres_hp_st s t s' : hp t = hp s -> st t = st s -> pres t s' -> pres s s'.
+Proof. intros E1 E2. unfold pres. now rewrite E1, E2. Qed.
+
+(* end to end: the CALL of cons on a machine whose stack pointer is in range *)
+Theorem apply_cons s a b :
+  sp s < len (stack s) -> values_are_refs s -> val_ok s a -> val_ok s b ->
+  exists p s', apply_builtin cons_ [a; b] s = ROk (VPtr p) s' /\
+    ~ live (hp s) p /\ a_pair (abs s') p = Some (absv s a, absv s b) /\
+    pres s s' /\ values_are_refs s' /\ target_ok s' p.
+Proof.
+  intros Hinv W Ha Hb.
+  destruct (apply_builtin_called cons_ [a; b] s Hinv) as (s1 & E & Hc & E1 & E2).
+  destruct (cons_refines s1 a b (wf_hp_st s s1 E1 E2 W) (val_ok_hp s s1 a E1 Ha) (val_ok_hp s s1 b E1 Hb) Hc)
+    as (p & s' & Ec & Hnl & Hp & P & W' & T' & _).
+  exists p, s'. rewrite E. refine (conj Ec (conj _ (conj _ (conj _ (conj W' T'))))).
+  - now rewrite <- E1.
+  - rewrite Hp. now rewrite !(absv_hp s s1 _ E1).
+  - eapply pres_hp_st; eauto.
+Qed.
